@@ -326,7 +326,7 @@ def eval_adverb_scan_over(f, a, op, backend):
         see eval_adverb_scan_over_neutral
     """
     if is_atom(a):
-        return a
+        return a if is_empty(a) else backend.kg_asarray([a])
     # Use backend's ufunc accumulate when available for better performance
     np_backend = backend.np
     if isinstance(op, KGOp):
